@@ -20,9 +20,12 @@ RULE = ("plan = op + operands. rbind: 2..4 frames (0..8 rows quick / 0..20 thoro
         "existing column. Distinct = plan hash.")
 CASES = {"quick": 1500, "thorough": 16000}
 
-FAMILIES = {"num": ["i", "f"], "time": ["d", "t"], "bool": ["b"], "str": ["s"], "obj": ["o"]}
+FAMILIES = {"num": ["i", "f"], "time": ["d", "t"], "bool": ["b"], "str": ["s"], "obj": ["o"],
+            # less common dtypes: bytes, timedelta, narrow integers, float32, legacy fixed-width strings, object bools
+            "bytes": ["y"], "delta": ["td"], "small": ["i8", "u8", "i"], "f32": ["f32", "f"], "ustr": ["u", "s"], "obool": ["ob"]}
 POOL = ["a", "b", "c", "d"]
 KINDS = ["f", "i", "b", "s", "u", "d", "t", "o", "td"]
+NESTED = ["a", "ab", "abc", "b", "bc", "rid", "_rid", "id", "_", ""]
 
 
 @st.composite
@@ -48,6 +51,11 @@ def _rbind(draw, max_rows):
 @st.composite
 def _single(draw, max_rows):
     fp = draw(gen.frame_plan(kinds=KINDS, max_rows=max_rows, max_cols=4, min_cols=0, prefix="c"))
+    if draw(st.integers(0, 2)) == 0:
+        # column names contained in one another (and in the row-id column's name)
+        nested = draw(st.permutations(NESTED))
+        for c, nm in zip(fp["cols"], nested):
+            c["name"] = nm
     names = [c["name"] for c in fp["cols"]] + ["_rid_"]
     op = draw(st.sampled_from(["select", "unselect", "rename", "colnames", "colnames", "modify"]))
     plan = {"op": op, "frame": fp}
@@ -56,6 +64,8 @@ def _single(draw, max_rows):
     elif op == "unselect":
         sub = list(draw(st.permutations(names)))[:draw(st.integers(0, len(names)))]
         plan["names"] = sub + (["zz"] if draw(st.booleans()) else [])
+        if draw(st.integers(0, 2)) == 0:
+            plan["names"] = [draw(st.sampled_from(names))]          # exactly one name, as in everyday use
     elif op == "rename":
         k = draw(st.integers(0, len(names)))
         olds = list(draw(st.permutations(names)))[:k]
